@@ -362,12 +362,39 @@ def tail_docs():
     return docs
 
 
+def textarea_docs():
+    """textareas whose content is not just one text node (the bs4 API and html.parser allow element children): :placeholder-shown looks at
+    the whole text content"""
+    A = lambda k, v: {'k': common.cps(k), 'ns': [], 'local': common.cps(k), 'v': common.cps(v), 'list': False}  # noqa: E731
+    docs = []
+    for inner in ([('e', 'p', 'hello')], [('e', 'p', '')], [('t', None, ' ')], [('t', None, '\n')], [('e', 'b', ''), ('t', None, '')], [('e', 'p', '\n')], [('c', None, 'note')], []):
+        d = {'parent': [], 'kind': [], 'name': [], 'ns': [], 'pfx': [], 'attrs': [], 'text': [], 'top': 'doc', 'xml': False}
+
+        def add(p, kind, name='', attrs=(), text=''):
+            d['parent'].append(p); d['kind'].append(kind); d['name'].append(common.cps(name)); d['ns'].append([]); d['pfx'].append([])
+            d['attrs'].append(list(attrs)); d['text'].append(common.cps(text))
+            return len(d['parent'])
+        root = add(0, 'e', 'form')
+        ta = add(root, 'e', 'textarea', [A('placeholder', 'x')])
+        for kind, name, text in inner:
+            if kind == 'e':
+                e = add(ta, 'e', name)
+                if text:
+                    add(e, 't', text=text)
+            elif text or kind == 'c':
+                add(ta, kind, text=text)
+        add(root, 'e', 'input', [A('placeholder', 'y'), A('value', '')])
+        docs.append(d)
+    return docs
+
+
 def trace_part(router, tier):
     rng = random.Random(common.SEED * 7919 + 17)
     ndocs, nmax = (70, 22) if tier == 'quick' else (900, 34)
     jobs = [('t%d' % k, rand_form_doc(rng, nmax)) for k in range(ndocs)]
     td = tail_docs()
     jobs += [('tail%d' % k, d) for k, d in enumerate(td if tier == 'thorough' else td[::2])]
+    jobs += [('ta%d' % k, d) for k, d in enumerate(textarea_docs())]
     procs = 8
     ctx = mp.get_context('fork')
     chunks = [jobs[i::procs] for i in range(procs)]
